@@ -402,7 +402,7 @@ func TestFilter(t *testing.T) {
 	r := evid.R()
 	ctx := context.Background()
 	notes := 0
-	r.Check(t, r.Scale(800, 40000), 1, func(t *rapid.T) {
+	r.Check(t, r.Scale(4000, 60000), 1, func(t *rapid.T) {
 		ws := protogen.GenWorkspace(t, genConfig())
 		fixMapEnums(ws)
 		var genClasses []string
